@@ -4,7 +4,7 @@ fingerprint of its definition (see sa/canon.py).  Run after every commit to /rep
 import ast, json, os, sys
 V = os.path.dirname(os.path.dirname(os.path.abspath(__file__)))
 sys.path.insert(0, V)
-from sa import canon
+from sa import canon, normalize
 from sa.core import REPO
 out = {}
 allfuncs = []
@@ -19,6 +19,7 @@ for dirpath, dirnames, filenames in os.walk(os.path.join(REPO, 'photutils')):
         if mod.endswith('.__init__'):
             mod = mod[:-9]
         tree = ast.parse(open(path, encoding='utf-8').read())
+        normalize.canonical_shapes(tree, mod)
         for q, node in canon._functions(tree, mod):
             allfuncs.append(q)
             d = canon.local_defs(node)
